@@ -259,6 +259,9 @@ def run_case(case):
              KF_EXCESS if (excess0 or (T == 1 and len(set(d)) > 1)) else None)
         return {"violations": v, "obs": obs}
     sc = out["scales"]
+    if not isinstance(sc, list) or not sc:
+        viol("generated-info-has-no-scale", f"scales = {sc!r}")
+        return {"violations": v, "obs": obs}
     obs["infos"] = 1
     obs["scales"] = len(sc)
     try:
